@@ -3,6 +3,7 @@ import SamlModel.Props.C06
 import SamlModel.Props.C08
 import SamlModel.Props.C09
 import SamlModel.Props.SsoGen
+import SamlModel.Props.RedirectSigGen
 set_option linter.unusedSimpArgs false
 set_option linter.unusedVariables false
 /-!
@@ -160,3 +161,38 @@ theorem C09_generated_sso_handler (o : Ora) (cfg : provider_IdentityProviderConf
   cases hs <;> simp [obsOfModel] at hr hnp
 
 end C09
+
+namespace C05
+open Go Gen Consts CallbackGen Sso SsoGen FnLemmas RedirectSigGen
+
+/-- the storage's service providers validate redirect signatures with the library's own method: the answers of the
+    `ValidateRedirectSignature` oracle are those of the regenerated function -/
+def RedirectOracleIsGenerated (o : Ora) : Prop :=
+  ∀ sp r rs a s, o.m_ValidateRedirectSignature (some sp) r rs a s = (ServiceProvider_ValidateRedirectSignature o (some sp) r rs a s).get
+
+/-- **C05, down to the verified octets.**  If the Redirect signature of an accepted request "verified"
+    (`redirectVerified`, the conclusion of `C05_required_implies_verified` / `C05_generated_handler`), then a signing key is
+    registered for the service provider, the Signature parameter is base64 of some bytes `sv`, and the signature
+    verifier (`signature.ValidateRedirect`: RSA / DSA over the algorithm named by SigAlg) accepted `sv` under that key
+    over exactly `octets AuthRequest RelayState SigAlg` - octets that determine these three values
+    (`octets_injective`): the signature covers exactly the request content, RelayState and algorithm the endpoint then
+    acts on (`form` is what `getAuthRequestFromRequest` read and what is decoded, echoed and persisted). -/
+theorem C05_redirect_signature_covers_what_is_acted_on (o : Ora) (hlink : RedirectOracleIsGenerated o) (form : Form)
+    (sp : serviceprovider_ServiceProvider) (h : redirectVerified o form sp) :
+    sp.signerPublicKey.isSome ∧ ∃ sv, Lib.b64decode form.Sig = some sv ∧
+      o.f_ValidateRedirect form.SigAlg (Lib.stringToBytes (String.ofList (octets form.AuthRequest form.RelayState form.SigAlg))) sv
+        sp.signerPublicKey = none := by
+  obtain ⟨_, _, _, _, hv⟩ := h
+  rw [hlink, validateRedirect_spec] at hv
+  simp only [Res.get] at hv
+  cases hk : sp.signerPublicKey with
+  | none => simp [hk] at hv
+  | some k =>
+    simp only [hk, Option.isNone_some, Bool.false_eq_true, if_false] at hv
+    cases hd : Lib.b64decode form.Sig with
+    | none => simp [hd] at hv
+    | some sv =>
+      simp only [hd] at hv
+      exact ⟨rfl, sv, rfl, hv⟩
+
+end C05
